@@ -448,6 +448,7 @@ func runC01(ctx *core.Ctx) {
 		schemacorr.Run(ctx) // gojsonschema vs Schema.conforms (harness/schema.go): the tie behind Props/C01Schema.lean
 	}
 	if only == "" || only == "oracle" {
+		c01Valid(ctx) // combinations of valid attribute spellings (c01_valid.go)
 		c01Tags(ctx, rich)
 		c01Missing(ctx)
 		c01Kinds(ctx, sch, rich)
